@@ -38,7 +38,7 @@ def plot_case(draw):
     return {"g": g, "k": k, "kind": kind, "vdims": draw(gen.vdims_strategy(k)), "perm": list(draw(st.permutations(range(3)))),
             "use_vdims_arg": draw(st.booleans()), "seed": draw(st.integers(0, 2**31)), "mask": draw(gen.mask_spec(2)),
             "mult": draw(st.sampled_from([None, None, 1e-9, 1e-6, 1e-3, 1, 1e3])),
-            "aux": draw(st.sampled_from(["none", "filter", "filter", "color"])), "aux_n": aux_n,
+            "aux": draw(st.sampled_from(["none", "filter", "filter", "color", "lightness"])), "aux_n": aux_n,
             "aux_other": [draw(st.integers(1, 7)), draw(st.integers(1, 7))], "aux_seed": draw(st.integers(0, 2**31)),
             "lin": [draw(st.integers(-3, 3)), draw(st.integers(-3, 3)), draw(st.integers(-2, 2))]}
 
@@ -89,7 +89,7 @@ def aux_field(case, mesh, lat):
     m2 = df.Mesh(region=mesh.region, n=n2)
     rng = np.random.default_rng(case["aux_seed"])
     vals = rng.choice([0.0, 0.0, 0.25, -1.0, 2.0, 1e-9], size=(*n2, 1))  # exactly zero hides a cell, nothing else does
-    if case["aux"] == "color":
+    if case["aux"] in ("color", "lightness"):
         vals = np.arange(int(np.prod(n2))).reshape(*n2, 1) + 0.125
     af = df.Field(m2, nvdim=1, value=vals)
     lat2 = Lattice([float(x) for x in mesh.region.pmin], [float(x) for x in mesh.region.pmax], n2)
@@ -188,6 +188,7 @@ def check_plot(case):
     aux, opts = (None, None)
     if case["aux"] != "none":
         aux, opts = aux_field(case, mesh, lat)
+        aux_snap = snapshot(aux)
         tag(f"aux-{case['aux']}-{case['aux_n']}")
     fig, ax = plt.subplots()
     try:
@@ -218,6 +219,8 @@ def check_plot(case):
                 raise Reject()
             if case["aux"] == "filter":
                 kw["filter_field"] = aux
+            elif case["aux"] == "lightness":
+                kw["lightness_field"] = aux
             f.mpl.lightness(ax=ax, **kw)
         elif kind == "vector":
             if case["use_vdims_arg"]:
@@ -233,9 +236,12 @@ def check_plot(case):
             if k == 3 and (0 not in comp_axis or 1 not in comp_axis):
                 raise Reject()
             f.mpl(ax=ax, **kw)
-        # ---------------- field untouched
+        # ---------------- field untouched (the plotted one and any field handed in as filter / colour / lightness)
         if snapshot(f) != snap:
             raise Violation("plot-modified-field", f"{kind}: array, validity or mesh changed by plotting")
+        if aux is not None and snapshot(aux) != aux_snap:
+            raise Violation("plot-modified-auxiliary-field", f"{kind}: the {case['aux']} field handed to the plot was "
+                                                             f"changed by plotting")
         # ---------------- axis labels
         want_x = f"{dims[0]} ({PREFIX[mult]}{units[0]})"
         want_y = f"{dims[1]} ({PREFIX[mult]}{units[1]})"
